@@ -36,6 +36,8 @@ pub struct Plan {
     pub submit_ms: u64,
     pub settle_ms: u64,
     pub duplicates: bool,
+    pub sync_retry_ms: u64,
+    pub mempool_sync_retry_ms: u64,
 }
 
 pub fn plan(class: &str, seed: u64, p: &Params) -> Plan {
@@ -63,7 +65,7 @@ pub fn plan(class: &str, seed: u64, p: &Params) -> Plan {
             }
         }
     }
-    let blocked = if class == "s10" {
+    let blocked = if class == "s10" || class == "s10b" {
         let c = clients[0].0;
         let mut v = rng.gen_range(0, n);
         while v == c {
@@ -73,7 +75,7 @@ pub fn plan(class: &str, seed: u64, p: &Params) -> Plan {
     } else {
         None
     };
-    Plan { n, timeout_ms, hi_ms: 40, clients, blocked, submit_ms: 4_000, settle_ms: if blocked.is_some() { 40_000 } else { 20_000 }, duplicates: rng.gen_bool(0.3) }
+    Plan { n, timeout_ms, hi_ms: 40, clients, blocked, submit_ms: 4_000, settle_ms: if blocked.is_some() { 40_000 } else { 20_000 }, duplicates: rng.gen_bool(0.3), sync_retry_ms: if class == "s10b" { 1_000 } else { 5_000 }, mempool_sync_retry_ms: if class == "s10b" { 6_000 } else { 2_000 } }
 }
 
 pub struct Outcome {
@@ -95,7 +97,8 @@ pub fn execute(plan: &Plan, seed: u64) -> Outcome {
         cfg.full_node = true;
         cfg.batch_size = 200;
         cfg.max_batch_delay = 50;
-        cfg.mempool_sync_retry_ms = 2_000;
+        cfg.mempool_sync_retry_ms = plan.mempool_sync_retry_ms;
+        cfg.sync_retry_ms = plan.sync_retry_ms;
         let cluster = Cluster::start(cfg).await;
         {
             let mut c = cluster.ctl.lock().unwrap();
